@@ -71,7 +71,7 @@ pub fn dir_entries3() -> Vec<SEntry> {
 }
 
 pub fn foreign_leaf_spec(comp: u8) -> Spec {
-    Spec { order: 2, gap: 1, root_gap: false, shape: Shape::Leaves, run: 2, offs: Offs::BackRefs, n: 3, meta: 2, comp, base: 0, hv: 1, level_order: false }
+    Spec { order: 2, gap: 1, root_gap: false, shape: Shape::Leaves, run: 2, offs: Offs::BackRefs, n: 3, meta: 2, comp, base: 0, hv: 1, level_order: false, cv: 0 }
 }
 
 fn header_sample() -> Header {
@@ -425,7 +425,7 @@ pub fn scenarios(include_heavy: bool) -> Vec<Scenario> {
     for c in COMPS {
         let code = crate::common::comp_code(c);
         let name = cname(c);
-        let f = foreign::build(&Spec { order: 0, gap: 0, root_gap: false, shape: Shape::Leaves, run: 1, offs: Offs::Contiguous, n: 3, meta: 2, comp: code, base: 0, hv: 1, level_order: false });
+        let f = foreign::build(&Spec { order: 0, gap: 0, root_gap: false, shape: Shape::Leaves, run: 1, offs: Offs::Contiguous, n: 3, meta: 2, comp: code, base: 0, hv: 1, level_order: false, cv: 0 });
         for which in ["meta", "root", "leaf"] {
             // grow the declared length of one section over the 9 bytes that follow it
             let mut b = f.bytes.clone();
